@@ -52,7 +52,7 @@ FALLBACK = {
     "rx_source": None, "key_sep": "-", "loop_order": [], "could_prefix": "Could not load the ",
     "could_suffix": " guardrails configuration. An internal error has occurred.", "internal_reply": "Internal server error.",
     "short_reply": "The `thread_id` must have a minimum length of 16 characters.", "thread_prefix": "thread-",
-    "handler_min": 16, "field_min": 16, "field_max": 255, "fallback": True,
+    "handler_min": 16, "field_min": 16, "field_max": 255, "fallback": True, "process_state": {},
 }
 
 
@@ -73,11 +73,28 @@ def translate():
     return out
 
 
+# module-level variables of api.py the request path may reach, and what they are in the model
+MODEL_STATE = {
+    "chat_completion": ["api_request_headers",   # context variable, written only
+                        "app",                   # Cfg (root, single-config mode, default id)
+                        "datastore",             # State.store
+                        "llm_rails_events_history_cache", "llm_rails_instances",   # State.cache (the events cache only travels with an instance)
+                        "log", "registered_loggers"],
+    "register_datastore": ["datastore"],
+}
+
+
 def static_tie():
     inf = info()
     probs = []
     if inf.get("fallback"):
         return probs  # already reported by translate()
+    ps = inf.get("process_state") or {}
+    for entry, want in MODEL_STATE.items():
+        extra = sorted(set(ps.get(entry, [])) - set(want))
+        if extra:
+            probs.append(f"{entry} can reach module-level state {extra} that the model does not have (model: rails cache + datastore only; "
+                         f"theorem chat_step_reads_store says a turn depends on nothing else)")
     if inf["loop_order"] != ["regex", "commonprefix", "from_path"]:
         probs.append(f"_get_rails loop no longer runs regex test, common-prefix test, from_path in this order: {inf['loop_order']}")
     return probs
